@@ -76,6 +76,11 @@ class Site(object):
                 return 'robots30x', _http(301, 'Moved', filler, 'text/html',
                                           [('Location', 'http://%s%s' % (via.get('host', olabel), via['path']))])
             k = r['kind']
+            if k == 'script':              # a different answer each time the control file is asked for
+                seq = r['seq']
+                k = seq[min(n_hit, len(seq) - 1)]
+                r = dict(r, **(k if isinstance(k, dict) else {'kind': k}))
+                k = r['kind']
             if k == 'rules':
                 body = 'User-agent: %s\n' % r.get('agent', '*')
                 for p in r.get('disallow', []):
@@ -97,6 +102,8 @@ class Site(object):
                 return 'robots30x', _http(301, 'Moved', b'', 'text/plain', [('Location', r['location'])])
             if k == 'drop':
                 return 'drop', None
+            if k == 'garbage':             # not an HTTP response at all
+                return 'raw', b'220 ftp.example.test ready\r\n'
         d = self.lookup(host, port, path)
         if d is None:
             return 'notfound', _http(404, 'Not Found', b'nope', 'text/plain')
